@@ -288,7 +288,7 @@ def check_detectors(acc, case, X, T, Xt, perm=None):
             acc.count("scale_detector_runs_skipped_variance_floor")
             continue
         if T[0] == "scale" and cls == "CircularBinarySegmentation" and any(
-                np.all(X[i] == X[j]) for i in range(n) for j in range(i + 3, n)):
+                np.any(X[i] == X[j]) for i in range(n) for j in range(i + 3, n)):  # in ANY column (the floor is per column)
             # pooled surroundings may consist of two equal non-adjacent rows -> variance floor active
             acc.count("scale_detector_runs_skipped_variance_floor")
             continue
